@@ -185,7 +185,7 @@ theorem crypt_toggles (d : Data) (m : List Nat) (hf : d.features < 32) :
 /-- `polyseed_crypt`: the events are [nfkd of the password, if it has non-ASCII bytes], ONE KDF call with
 (normalised password, 'POLYSEED mask' 00 FF FF, 10000 iterations, 32 bytes), then the three wipes. -/
 theorem crypt_events (cfg : Cfg) (env : Env) (lib : Lib) (b : Nat) (d : Data) (pw : List Nat) :
-    let pn := lazyNfkd cfg.sgn cfg.strSize (env.nfkd lib.deps.nfkd) pw
+    let pn := lazyNfkd cfg.strSize (env.nfkd lib.deps.nfkd) pw
     (crypt cfg env lib b d pw).2 =
       (if pn.2 then [Event.nfkd lib.deps.nfkd pw pn.1] else []) ++
       [Event.kdf lib.deps.pbkdf2 pn.1 [80, 79, 76, 89, 83, 69, 69, 68, 32, 109, 97, 115, 107, 0, 255, 255] 10000 32
@@ -198,7 +198,7 @@ theorem crypt_events (cfg : Cfg) (env : Env) (lib : Lib) (b : Nat) (d : Data) (p
 
 /-- canonically equivalent spellings (equal normalised forms) give the same result. -/
 theorem crypt_norm_equiv (cfg : Cfg) (env : Env) (lib : Lib) (b : Nat) (d : Data) (pw pw' : List Nat)
-    (h : (lazyNfkd cfg.sgn cfg.strSize (env.nfkd lib.deps.nfkd) pw).1 = (lazyNfkd cfg.sgn cfg.strSize (env.nfkd lib.deps.nfkd) pw').1) :
+    (h : (lazyNfkd cfg.strSize (env.nfkd lib.deps.nfkd) pw).1 = (lazyNfkd cfg.strSize (env.nfkd lib.deps.nfkd) pw').1) :
     (crypt cfg env lib b d pw).1.get b = (crypt cfg env lib b d pw').1.get b := by
   rw [(crypt_events cfg env lib b d pw).2, (crypt_events cfg env lib b d pw').2, h]
 
